@@ -234,15 +234,7 @@ func runC03(c *Ctx) {
 	checkKeyComponents(c, p)
 
 	// R03.8: constant-position accesses in match and the decoders
-	decoderFns := map[*ssa.Function]bool{}
-	for _, lit := range lits {
-		for _, f := range []string{"MatchType", "Name", "Variant"} {
-			if call, ok := lit.fields[f].(*ssa.Call); ok && call.Call.StaticCallee() != nil {
-				decoderFns[call.Call.StaticCallee()] = true
-			}
-			decoderFns[lit.fn] = true // an inlined decoder indexes the split key next to the literal
-		}
-	}
+	decoderFns := keyDecoderFuncs(p, lits)
 	var sub []*ssa.Function
 	for _, f := range fns {
 		if p.IsFn(f, v2pkg, "(*Classifier).match") || decoderFns[f] {
@@ -261,6 +253,26 @@ func runC03(c *Ctx) {
 
 	checkLineCounter(c, p, "R03.9")
 	checkOneTokenPerWord(c, p, "R03.10")
+}
+
+// keyDecoderFuncs: the functions that compute MatchType/Name/Variant of the license Match literals - the decoders called
+// there with the helpers they hand the key to, and the function that holds the literal (an inlined decoder).
+func keyDecoderFuncs(p *core.Prog, lits []structLit) map[*ssa.Function]bool {
+	decoderFns := map[*ssa.Function]bool{}
+	for _, lit := range lits {
+		if s, ok := core.ConstString(lit.fields["MatchType"]); ok && s == "Copyright" {
+			continue
+		}
+		for _, f := range []string{"MatchType", "Name", "Variant"} {
+			if call, ok := lit.fields[f].(*ssa.Call); ok && call.Call.StaticCallee() != nil {
+				for _, g := range pkgClosure(call.Call.StaticCallee(), v2pkg) {
+					decoderFns[g] = true
+				}
+			}
+			decoderFns[lit.fn] = true
+		}
+	}
+	return decoderFns
 }
 
 // loopDepthOf: the number of loops of the function that contain block b (headers that dominate b and that b
@@ -513,31 +525,70 @@ func asKeySplit(v ssa.Value, depth int) (ssa.Value, bool) {
 	return nil, false
 }
 
-// keyComponent: v is component k of a docs key: decoder(key) with a decoder returning component k, or
-// strings.Split(key, pathsep)[k] directly.
+// keyComponent: v is component k of a docs key: strings.Split(key, pathsep)[k] directly, or the result of a chain of
+// in-repo helpers that ends in such an element, with the key and the constant position handed down as arguments
+// (LicenseName(key) -> docNameField(key, 1) -> strings.Split(key, sep)[1]).
 func keyComponent(v ssa.Value) (key ssa.Value, idx int64, ok bool) {
-	switch x := v.(type) {
+	return keyComponentIn(v, nil, 0)
+}
+
+func keyComponentIn(v ssa.Value, bind map[ssa.Value]ssa.Value, depth int) (ssa.Value, int64, bool) {
+	if depth > 4 {
+		return nil, 0, false
+	}
+	res := func(x ssa.Value) ssa.Value {
+		x = core.Unspill(x)
+		for i := 0; i < 6; i++ {
+			y, ok := bind[x]
+			if !ok {
+				break
+			}
+			x = core.Unspill(y)
+		}
+		return x
+	}
+	switch x := res(v).(type) {
 	case *ssa.Call:
-		dec := x.Call.StaticCallee()
-		if dec == nil || len(x.Call.Args) != 1 {
+		f := x.Call.StaticCallee()
+		if f == nil || !core.InRepo(f) || len(f.Blocks) == 0 || len(x.Call.Args) != len(f.Params) {
 			return nil, 0, false
 		}
-		k, okD := decoderIndex(dec)
-		if !okD {
+		nb := map[ssa.Value]ssa.Value{}
+		for i, prm := range f.Params {
+			nb[prm] = res(x.Call.Args[i])
+		}
+		var key ssa.Value
+		idx, n := int64(0), 0
+		for _, b := range f.Blocks {
+			ret, isRet := b.Instrs[len(b.Instrs)-1].(*ssa.Return)
+			if !isRet {
+				continue
+			}
+			if len(ret.Results) != 1 {
+				return nil, 0, false
+			}
+			k, i, ok := keyComponentIn(ret.Results[0], nb, depth+1)
+			if !ok || (n > 0 && (k != key || i != idx)) {
+				return nil, 0, false
+			}
+			key, idx = k, i
+			n++
+		}
+		if n == 0 {
 			return nil, 0, false
 		}
-		return core.Unspill(x.Call.Args[0]), k, true
+		return key, idx, true
 	case *ssa.UnOp:
 		ia, isIA := x.X.(*ssa.IndexAddr)
 		if !isIA {
 			return nil, 0, false
 		}
-		k, isK := core.ConstInt(ia.Index)
+		k, isK := core.ConstInt(res(ia.Index))
 		keyV, isSplit := asKeySplit(ia.X, 0)
 		if !isK || !isSplit {
 			return nil, 0, false
 		}
-		return keyV, k, true
+		return res(keyV), k, true
 	}
 	return nil, 0, false
 }
@@ -1029,10 +1080,10 @@ func checkKeyComponents(c *Ctx, p *core.Prog) {
 	}
 	// are the reported components recovered by splitting? (decoders called on the key in the Match literal)
 	splits := false
-	for _, fn := range v2Funcs(p) {
+	for fn := range keyDecoderFuncs(p, structLits(v2Funcs(p), "/v2.Match")) {
 		for _, call := range core.CallsIn(fn) {
 			if n := core.StaticCalleeName(call.Common()); n == "strings.Split" || n == "strings.SplitN" {
-				if isString(call.Common().Args[0].Type()) && (p.IsFn(fn, v2pkg, "LicenseName") || p.IsFn(fn, v2pkg, "variantName") || p.IsFn(fn, v2pkg, "detectionType") || p.IsFn(fn, v2pkg, "(*Classifier).match")) {
+				if isString(call.Common().Args[0].Type()) {
 					splits = true
 				}
 			}
